@@ -7,6 +7,7 @@ package storage
 import (
 	"fmt"
 	"sync"
+	"unsafe"
 
 	"github.com/marekgalovic/anndb/index"
 	pb "github.com/marekgalovic/anndb/protobuf"
@@ -108,4 +109,18 @@ func (v *VerifPartition) Restore(data []byte) (err error, panicked interface{}) 
 func VerifBatchErrors(res interface{}) (map[uuid.UUID]error, bool) {
 	m, ok := res.(partitionBatchResult)
 	return map[uuid.UUID]error(m), ok
+}
+
+// VerifPlacement exposes the allocator's placement decision, plus the address of each
+// partition's first element (two partitions sharing a backing array show up as equal or
+// adjacent addresses within one array).
+func (this *Allocator) VerifPlacement(partitionCount uint, replicationFactor uint) ([][]uint64, []uintptr) {
+	res := this.getPartitionsNodeIds(partitionCount, replicationFactor)
+	addrs := make([]uintptr, len(res))
+	for i, r := range res {
+		if len(r) > 0 {
+			addrs[i] = uintptr(unsafe.Pointer(&r[0]))
+		}
+	}
+	return res, addrs
 }
